@@ -1767,6 +1767,13 @@ theorem C16_append_complete {fuel : Nat} {xs ys zs : Term} {ans : Answers}
   · exact ha.elim
 
 
+/-- the side conditions `UnifyDefined` / `SldDefined` of the theorems above are decided by the
+    executable checks that the driver evaluates on every case of the stream -/
+theorem C16_side_conditions_checked :
+    (∀ a b, unifyDefinedB a b = true → UnifyDefined a b) ∧
+    (∀ clauses f goals args, sldDefinedB clauses f goals args = true → SldDefined clauses f goals args) :=
+  ⟨fun _ _ h => unifyDefined_of_B h, fun _ f goals args h => sldDefined_of_B f goals args h⟩
+
 /-! ## open statements
 
   Proved above for member/2, select/3, append/3: soundness and completeness for arbitrary
